@@ -8,6 +8,9 @@ BASE_NOTE = "Trusted base: Go 1.26.8 toolchain (testing/synctest for the virtual
 
 # property -> (technique, level text, design ref, extra note)
 CLAIMED = {
+ "C03": ("schedule/history search in a synctest bubble: concurrent callers against a scripted wire-level peer that answers in generated order and style; payload = f(request index, token) as cross-delivery oracle",
+         "8k (quick) / 200k (thorough) generated scenarios on datagram and stream connections, block-wise on/off, concurrent or serialised, with token families built to collide as far as byte strings can, separate/early/delayed/duplicated responses, stray responses with prefix/extension tokens and duplicate-token requests.",
+         "DESIGN.md 3/C03", "DTLS/TLS share the connection layer with the in-memory transports; hash collisions of Token.Hash() are not constructed."),
  "C12": ("life-cycle monitor (verif pool hook: state machine, poison on release, verification on re-acquisition and end-of-run sweep) over generated mixed scenarios between two endpoints with 2-8 object pools; application-side snapshots",
          "4k (quick) / 150k (thorough) generated histories with faults, cancellations, slow handlers and concurrency; every acquire/release of both pools is observed, so a double release or a write after release anywhere on an executed path is detected deterministically; content stability of messages the application holds is compared after the pool was churned.",
          "DESIGN.md 3/C12", "Only paths that the generated scenarios execute are covered; pure reads after release are invisible unless they surface as changed content."),
